@@ -9,7 +9,7 @@ from multiprocessing import Pool
 
 from . import toy
 from .constants import limbs
-from .core import Ctx, MachineryError, NCPU
+from .core import Ctx, Guarded, MachineryError, NCPU
 
 # ----------------------------------------------------------------------------- own arithmetic (projection only)
 def f_inv(p, a):
@@ -458,9 +458,9 @@ def run_traces(ctx: Ctx, which, all_ells=False):
             for ell in ells:
                 jobs.append((mname, group, ell, ctx.seed + 700 + 13 * k + ell, ctx.tier))
     with Pool(min(NCPU, max(1, len(jobs) + len(sjobs) + len(gjobs)))) as pool:
-        r1 = pool.map_async(build_trace, jobs, chunksize=1)
-        r2 = pool.map_async(build_secp, sjobs, chunksize=1)
-        r3 = pool.map_async(build_g12, gjobs, chunksize=1)
+        r1 = pool.map_async(Guarded(build_trace), jobs, chunksize=1)
+        r2 = pool.map_async(Guarded(build_secp), sjobs, chunksize=1)
+        r3 = pool.map_async(Guarded(build_g12), gjobs, chunksize=1)
         traces = r1.get() + r2.get() + r3.get()
     ctx.log(f"group traces: {len(traces)} traces, {sum(len(t['events']) for t in traces)} events from the real modules")
 
